@@ -403,6 +403,21 @@ pub fn replay_obj(rep: &mut Report, st: &mut ObjState, rec: &J) {
 		rep.mismatch("C06.index", json!({"what": "key index buckets differ from the index of the entries (stale / unsorted)", "vector": rec, "observed": idx}));
 	}
 	let keys = keys_of_vector(rec);
+	// the object is also queried from another thread than the one that built it
+	if rep.counters["obj_vectors"] % 16 == 3 {
+		let mut moved = o.clone();
+		let entries = post["entries"].clone();
+		let r = std::thread::scope(|sc| sc.spawn(|| guarded(|| check_queries(&mut moved, &entries, &keys))).join());
+		match r {
+			Ok(Ok(None)) => (),
+			Ok(Ok(Some(d))) => rep.mismatch("C06.query", json!({"what": "key-based query from another thread differs from a linear scan", "vector": rec, "detail": d})),
+			_ => rep.mismatch("C06.panic", json!({"what": "query from another thread panicked", "vector": rec})),
+		}
+		let r2 = std::thread::scope(|sc| sc.spawn(|| guarded(|| check_queries(&mut o, &entries, &keys))).join());
+		if !matches!(r2, Ok(Ok(None))) {
+			rep.mismatch("C06.query", json!({"what": "key-based query of the object itself, moved to another thread, differs from a linear scan", "vector": rec}));
+		}
+	}
 	match guarded(|| check_queries(&mut o, &post["entries"], &keys)) {
 		Ok(None) => (),
 		Ok(Some(d)) => rep.mismatch("C06.query", json!({"what": "key-based query differs from a linear scan", "vector": rec, "detail": d})),
